@@ -6,6 +6,31 @@ import os
 
 ROOT = os.path.dirname(os.path.dirname(os.path.abspath(__file__)))
 NOTES = {
+    "C02-r6-2": "enumerating the pages writes inherited attributes into the cached page dictionary: C02's histories hold no page trees and are silent; caught by C04 after it re-reads every page object after the enumeration (page_object_changed_by_enumeration)",
+    "C02-r6-3": "missed at first (no revision ever redefined an object as null); caught after update revisions may set an object to the null object",
+    "C04-r6-2": "missed at first by C04 (C01 caught the kept null entries); caught by C04 after 6% of the absent inheritable keys are written with the null object",
+    "C04-r6-3": "missed at first (every Resources dictionary had the Font category only); caught after half of them carry a second category of their own and the category set of page.resources is asserted",
+    "C05-r6-1": "missed at first (Type 3 font matrices were diagonal); caught after half of them became oblique (c != 0)",
+    "C05-r6-2": "missed at first by C05 (single-page programs; C12 caught it); caught by C05 after a quarter of the judged pages follow a page that leaves text state behind",
+    "C05-r6-3": "same change as C16-r5-2 (one-element array colour space resources): C05 selects colour spaces by their device names only; caught by C16",
+    "C08-r6-1": "the check ran into its shard timeout instead of reporting (one overall step budget per page, cubic in the glyph count); caught (step_budget:group_textlines) after per-phase allowances and a run-wide stop flag (builder)",
+    "C09-r6-1": "missed at first; caught after the form route (same glyph boxes through a form XObject under all_texts, figure box asserted) (builder)",
+    "C09-r6-2": "missed at first (tools/pdf2txt.py was not driven); caught after the pdf2txt layout-flag monitor (builder)",
+    "C10-r6-1": "missed at first; caught after encrypted classic-table files with a damaged startxref and generations > 0 on content streams and Info (builder)",
+    "C11-r6-1": "missed at first; caught after the pdf2txt -o/-c/-t monitor (builder)",
+    "C11-r6-3": "missed at first; caught after blank-only pages (groups == []) joined the XML tree comparison (builder)",
+    "C12-r6-1": "missed at first; caught after the pool got a form without /Resources painted by pages with different fonts",
+    "C12-r6-2": "missed at first; caught after the pool got an embedded CMap stream named /H with WMode 1 and a twin using the predefined /H",
+    "C12-r6-3": "missed at first; caught after the pool got an embedded Type 1 program whose header overrides StandardEncoding entries",
+    "C13-r6-2": "missed at first (no DeviceN / Indexed / Separation / Lab colour space in the seeds); caught after the graphics seed got them and colour-space sites are sampled densely",
+    "C13-r6-3": "missed at first (no TD operator in the seeds, content-token faults sampled with stride 12); caught after the basic seed got TD / T* / \" and content faults are sampled with stride 4",
+    "C16-r6-1": "missed at first (all colour components in 0..1); caught after Lab colour spaces with components up to +-100",
+    "C16-r6-2": "the initial matrix of a /Rotate 270 page: a page-geometry matter caught by C04 (glyph_origin:rot270); C16 generates no rotated pages",
+    "C16-r6-3": "the colour-space table shared between pages and forms needs a Do, outside C16's operator set; caught by C12 (PREDEFINED_COLORSPACE fingerprint, names-undefined document)",
+    "C17-r6-2": "missed at first; caught after 8% of the documents are read with caching=False and lookups are repeated in shuffled order (builder)",
+    "C17-r6-3": "missed at first; caught after page labels are re-evaluated with settings.STRICT=True on valid unbalanced trees (builder)",
+    "C18-r6-1": "a Group 4 decoding matter (make-up code 64 in the second run): C18's CCITT images have short rows and are silent; caught by C19",
+    "C20-r6-3": "missed at first (extend() was only used with new objects); caught after re-insertions also go through extend() (builder)",
     "C01-r5-1": "resolve_all is not part of reading object syntax: C01 (getobj / stream parser values) is silent; the effect shows where the library resolves containers - caught by C06 after /Widths arrays got one indirect object referenced from several positions (builder)",
     "C02-r5-1": "missed at first (the trailer dictionary always started on a new line); caught after tables may write it on the keyword's line",
     "C02-r5-3": "missed at first (hybrid tables never listed the objects hidden in the /XRefStm as free); caught after half of the hybrid revisions use the 7.5.8.4 layout",
